@@ -279,6 +279,9 @@ sts_n(Source *source, Sink *sink, const size_t n)
              * can provide a buffer in the next iteration, we can go on,
              * otherwise we cannot. */
             shortcut = channel_has_buffer_ext(source, sink);
+            if (shortcut == false) {
+                return rc;
+            }
             continue;
         } else if (rc < 0) {
             return rc;
